@@ -70,10 +70,14 @@ func canon(x zygo.Sexp) string {
 		return "(" + strings.Join(parts, " ") + ")"
 	case *zygo.SexpSymbol:
 		_, colon := zygo.VerifSymbolFlags(v)
-		if colon {
-			return v.Name() + ":"
+		nm := v.Name()
+		if strings.HasPrefix(nm, "__range_") {
+			nm = strings.TrimRight(nm, "0123456789") // generated symbols of lowerRangeFor
 		}
-		return v.Name()
+		if colon {
+			return nm + ":"
+		}
+		return nm
 	case *zygo.SexpInt:
 		return strconv.FormatInt(v.Val, 10)
 	case *zygo.SexpFloat:
@@ -96,6 +100,9 @@ func canon(x zygo.Sexp) string {
 		}
 		return "[" + strings.Join(parts, " ") + "]"
 	case *zygo.SexpHash:
+		if v.NumKeys == 0 {
+			return "{}"
+		}
 		return "{hash:" + v.SexpString(nil) + "}"
 	case *zygo.SexpComma:
 		return ","
@@ -216,6 +223,18 @@ func implExpand(env *zygo.Zlisp, src string) string {
 		return "PANIC"
 	}
 	return strings.ToUpper(r.Class)
+}
+
+// compilePanics: does parsing + compiling the block (LoadString, no evaluation) panic?
+func compilePanics(env *zygo.Zlisp, src string) (panicked bool) {
+	defer func() {
+		if r := recover(); r != nil {
+			panicked = true
+		}
+		env.Clear()
+	}()
+	_ = env.LoadString("{" + src + "}")
+	return false
 }
 
 // ---------------------------------------------------------------- evaluation with effects
@@ -369,6 +388,7 @@ func evalForms(forms []string) string {
 
 type gen struct {
 	env      *zygo.Zlisp
+	env2     *zygo.Zlisp
 	out      *lib.Out
 	seen     map[string]bool
 	unread   int
@@ -388,6 +408,11 @@ func (g *gen) parseCase(src string, withEval bool, tags ...string) {
 		return
 	}
 	impl := escFinal(implExpand(g.env, src))
+	if impl == "ERR" && compilePanics(g.env2, src) {
+		// (infixExpand ..) runs under the VM's recover and reports a panic as an error; compiling
+		// the block through LoadString shows whether the expander really panicked
+		impl = "PANIC"
+	}
 	if withEval {
 		impl += "\t" + evalBlock(src) + "\t" + escFinal(src)
 	} else {
@@ -505,7 +530,9 @@ func main() {
 	rng := lib.NewRng(args.Seed)
 	env := zygo.NewZlisp()
 	env.StandardSetup()
-	g := &gen{env: env, out: out, seen: map[string]bool{}, itemMemo: map[string]string{}}
+	env2 := zygo.NewZlisp()
+	env2.StandardSetup()
+	g := &gen{env: env, env2: env2, out: out, seen: map[string]bool{}, itemMemo: map[string]string{}}
 
 	// the operator alphabet must cover the implementation's table: any operator registered in
 	// env.infixOps that the generator does not know is reported (the check turns it into a failure)
@@ -679,6 +706,42 @@ func main() {
 		"for i := 0; i < 2 + 1; i++ { y = y + i * 2 }"}
 	for _, s := range fors {
 		g.parseCase(s, true, "for")
+	}
+
+	// E2. go-style for headers, well-formed and malformed: every header of up to 3 (thorough 4)
+	// tokens over a small alphabet, with a body block, plus a few without body / with a label
+	falpha := []string{"i", ":=", "=", "range", "v", ",", "k", ";", "<", "3", "++"}
+	fmax := 3
+	if thorough {
+		fmax = 4
+	}
+	for n := 0; n <= fmax; n++ {
+		idx := make([]int, n)
+		for {
+			parts := make([]string, n)
+			for i := range idx {
+				parts[i] = falpha[idx[i]]
+			}
+			h := strings.Join(parts, " ")
+			g.parseCase("for "+h+" { x++ }", false, "for-headers")
+			if n <= 2 {
+				g.parseCase("for "+h, false, "for-headers-nobody")
+				g.parseCase("top: for "+h+" { x++ }", false, "for-headers-label")
+				g.parseCase("y = 1; for "+h+" { } ; y", false, "for-headers-stmts")
+			}
+			k := n - 1
+			for k >= 0 {
+				idx[k]++
+				if idx[k] < len(falpha) {
+					break
+				}
+				idx[k] = 0
+				k--
+			}
+			if k < 0 {
+				break
+			}
+		}
 	}
 
 	// F. spacing around operators, with the lexer's sign rule
